@@ -448,6 +448,64 @@ class _Lower:
         return None
 
 
+class _FieldLocals:
+    """`v = Cls(...); self.f = v; v.read(...)` is `self.f = Cls(...); self.f.read(...)`: a local that only names the object just stored
+    into a field (the shape a table-driven decoder takes once its loop is unrolled) is replaced by the field, up to the next rebinding of
+    the local or of the field in the same block."""
+
+    def run(self, tree):
+        for n in ast.walk(tree):
+            for fld in ('body', 'orelse', 'finalbody'):
+                b = getattr(n, fld, None)
+                if isinstance(b, list) and b and isinstance(b[0], ast.stmt):
+                    setattr(n, fld, self.block(b))
+        return tree
+
+    @staticmethod
+    def _stores(stmt, name=None, field=None):
+        for x in ast.walk(stmt):
+            if name and isinstance(x, ast.Name) and x.id == name and isinstance(x.ctx, (ast.Store, ast.Del)):
+                return True
+            if field and isinstance(x, ast.Attribute) and x.attr == field and isinstance(x.value, ast.Name) and x.value.id == 'self' and isinstance(x.ctx, (ast.Store, ast.Del)):
+                return True
+        return False
+
+    def block(self, stmts):
+        out = list(stmts)
+        i = 0
+        while i + 1 < len(out):
+            a, b = out[i], out[i + 1]
+            if isinstance(a, ast.Assign) and len(a.targets) == 1 and isinstance(a.targets[0], ast.Name) and isinstance(a.value, ast.Call) \
+                    and isinstance(b, ast.Assign) and len(b.targets) == 1 and isinstance(b.targets[0], ast.Attribute) and isinstance(b.targets[0].value, ast.Name) \
+                    and b.targets[0].value.id == 'self' and isinstance(b.value, ast.Name) and b.value.id == a.targets[0].id \
+                    and not any(isinstance(x, ast.Name) and x.id == a.targets[0].id for x in ast.walk(a.value)):
+                v, f = a.targets[0].id, b.targets[0].attr
+                j = i + 2
+                ok = True
+                while j < len(out) and not self._stores(out[j], v, f):
+                    j += 1
+                # the local must not be read after the region (it would have to keep its value)
+                for k in range(j, len(out)):
+                    if self._stores(out[k], v):
+                        break
+                    if any(isinstance(x, ast.Name) and x.id == v and isinstance(x.ctx, ast.Load) for x in ast.walk(out[k])):
+                        ok = False
+                        break
+                if ok:
+                    class Rep(ast.NodeTransformer):
+                        def visit_Name(self_, node):
+                            if node.id == v and isinstance(node.ctx, ast.Load):
+                                return ast.copy_location(ast.Attribute(value=ast.Name(id='self', ctx=ast.Load()), attr=f, ctx=ast.Load()), node)
+                            return node
+                    new_store = ast.copy_location(ast.Assign(targets=[b.targets[0]], value=a.value), a)
+                    region = [ast.fix_missing_locations(Rep().visit(x)) for x in out[i + 2:j]]
+                    out[i:j] = [ast.fix_missing_locations(new_store)] + region
+                    i += 1
+                    continue
+            i += 1
+        return out
+
+
 class SourceSet:
     def __init__(self, root=None, overlay=None):
         self.root = root or DEFAULT_ROOT
@@ -485,6 +543,7 @@ class SourceSet:
             t = expand_tables(t)
             t = _Canon().visit(t)
             t = _AliasInline().run(t)          # what the expansion made a plain alias of a field (handler = self._process_get) is one now
+            t = _FieldLocals().run(t)
             for n in ast.walk(t):
                 for c in ast.iter_child_nodes(n):
                     c._parent = n
